@@ -1,10 +1,12 @@
 """C38 - concurrent commits log page images in commit order (spec/CommitOrder.tla).
 
-(A) TLC model-checks the capture / write protocol of COMMIT for 2 (thorough: 3) concurrent committers on one shared
+(A) TLC model-checks the capture / submit / elect / flush / return protocol (batches of several commits included: AckAfterLogged,
+    BatchLogged) of COMMIT for 2 (thorough: 3) concurrent committers on one shared
     page: Covered, LogOrder and ReplayGivesNewestCommitted hold for every schedule without overlap (Serial*
     invariants) and the witness configurations show that the protocol violates them with overlap.
 (B) every schedule TLC explores is driven through real cloned Database handles on real threads, parked at the hook
-    point `commit.captured` (between the copy of the page images and their submission to the log); afterwards the
+    points `commit.captured` (between the copy of the page images and their submission), `gc.check` (wait loop of the queue) and
+    `commit.flush.begin` (the leader has taken its batch); the batch sizes the real leaders take must be the model's; afterwards the
     directory is copied as a process-kill snapshot, reopened (recovery replays the log) and each row whose writer's
     COMMIT returned must carry that writer's last value. The model predicts the outcome of every schedule:
         model: newest committed image is last in the log   -> the recovered rows must be right
@@ -15,8 +17,8 @@ import vlib
 
 LEVEL = "model_checking"
 MANIFEST = dict(cat=LEVEL, ref="DESIGN.md 3.3, 6 (C38)",
-    tech="TLA+ spec CommitOrder.tla (shared dirty tracker, capture under the file-manager lock, log write after it) model-checked by TLC; every explored schedule forced on real Database handles by a puppeteer at the commit.captured hook, followed by a kill snapshot, recovery and comparison with the model's prediction",
-    text="TLC explores every interleaving of modify / capture / write steps of 2 committers (3 in thorough) with up to 3 page versions; Covered / LogOrder / ReplayGivesNewestCommitted are proved for non-overlapping schedules and refuted (witness) for overlapping ones; each explored schedule is executed on two real handles, the database is snapshotted as by a process kill, recovered, and every committed writer's row must carry its last value exactly when the model says the newest committed image is last in the log",
+    tech="TLA+ spec CommitOrder.tla (shared dirty tracker, capture under the file-manager lock, then the group-commit queue: submit, leader election taking every pending commit, flush of the batch in queue order, return of the waiters) model-checked by TLC; every explored schedule forced on real Database handles by a puppeteer at the commit.captured hook, followed by a kill snapshot, recovery and comparison with the model's prediction",
+    text="TLC explores every interleaving of modify / capture / submit / elect / flush / return steps of 2 committers (3 in thorough) with up to 3 page versions; Covered / LogOrder / ReplayGivesNewestCommitted are proved for non-overlapping schedules and refuted (witness) for overlapping ones; each explored schedule is executed on two real handles, the database is snapshotted as by a process kill, recovered, and every committed writer's row must carry its last value exactly when the model says the newest committed image is last in the log",
     note="one shared table page (two rows); index and overflow pages are outside this model (their absence from the log is the C01 finding power:...:index); group commit enabled (default); statements run to completion between schedule points")
 
 
